@@ -234,4 +234,24 @@ def mrun (cfg : MemoCfg) (f : Nat → Nat) : MState → List MOp → List (Optio
 
 def minit (v : Nat) : MState := ⟨v, none, false⟩
 
+/-! #### statements that can raise relative to calls that can fix state (round 3, `transform_1d_grid`) -/
+
+/-- A top-level statement: does it call a method of the object (which may fix a remembered
+parameter), does it contain a `raise`, and a description (`call:transform`, `raise:ValueError`, …). -/
+abbrev StmtTag := Bool × Bool × String
+
+/-- No statement containing a `raise` comes at or after the first statement that calls a method of the object. -/
+def guardsFirst : List StmtTag → Bool
+  | [] => true
+  | t :: rest => if t.1 then !t.2.1 && rest.all (fun u => !u.2.1) else guardsFirst rest
+
+/-- `transform_1d_grid` as a step on the remembered scale: `setB` is the (checked) update every method of
+the class performs first; `domainOk` says whether the grid passes the guards of `transform_1d_grid`.
+With the guards first a refused grid never reaches `setB`; with a guard after the calls the scale is
+fixed before the refusal.  Result: new state, and whether the call raised. -/
+def t1dStep {K : Type} (guardFirst : Bool) (setB : Option K → K → Option K × Bool) (domainOk : Bool)
+    (b : Option K) (mx : K) : Option K × Bool :=
+  if guardFirst then (if domainOk then setB b mx else (b, true))
+  else ((setB b mx).1, (setB b mx).2 || !domainOk)
+
 end GridVerif.Aliasing
